@@ -96,7 +96,10 @@ def specBin (psBefore : PState) (ss : SState) (newId : Nat) (mres : String) (op 
       -- the destination's content is unspecified afterwards
       let refuse (ss : SState) : SOut :=
         fin (dests.foldl (fun ss i => ss.setObj i none) ss) (some "r=err")
-      if !tc.contains tdt || dtA != dtB || (isArith && !(kernelTypes op).contains tdt) then refuse ss else
+      -- arithmetic destinations must have the operands' element type
+      let destDtBad := isArith && ((match reuseTok with | some t => dtOf t != tdt | none => false) ||
+        (match incrTok with | some t => dtOf t != tdt | none => false))
+      if !tc.contains tdt || dtA != dtB || (isArith && !(kernelTypes op).contains tdt) || destDtBad then refuse ss else
       let shapesOk := match ta, tb with
         | some (_, x), some (_, y) => some (x.idx.shape == y.idx.shape, totalSize x.idx.shape == totalSize y.idx.shape)
         | _, _ => none
